@@ -181,6 +181,80 @@ func init() {
 		return nil
 	})
 
+	// Map: a side table per *sync.Map (interface keys compared like map[any]any keys)
+	smap := func(m *Machine, p *Value) *Map {
+		mp := m.sideSyncMap[p]
+		if mp == nil {
+			mp = &Map{index: map[string]int{}}
+			m.sideSyncMap[p] = mp
+		}
+		return mp
+	}
+	reg("(*sync.Map).Load", func(fr *frame, args []Value) Value {
+		if e := fr.m.mapFind(smap(fr.m, fr.ptr(args[0])), args[1]); e != nil {
+			return Tuple{e.v, term.True}
+		}
+		return Tuple{Iface{}, term.False}
+	})
+	reg("(*sync.Map).Store", func(fr *frame, args []Value) Value {
+		fr.m.mapSet(smap(fr.m, fr.ptr(args[0])), args[1], args[2])
+		return nil
+	})
+	reg("(*sync.Map).LoadOrStore", func(fr *frame, args []Value) Value {
+		mp := smap(fr.m, fr.ptr(args[0]))
+		if e := fr.m.mapFind(mp, args[1]); e != nil {
+			return Tuple{e.v, term.True}
+		}
+		fr.m.mapSet(mp, args[1], args[2])
+		return Tuple{args[2], term.False}
+	})
+	reg("(*sync.Map).LoadAndDelete", func(fr *frame, args []Value) Value {
+		mp := smap(fr.m, fr.ptr(args[0]))
+		if e := fr.m.mapFind(mp, args[1]); e != nil {
+			v := e.v
+			fr.m.mapDelete(mp, args[1])
+			return Tuple{v, term.True}
+		}
+		return Tuple{Iface{}, term.False}
+	})
+	reg("(*sync.Map).Delete", func(fr *frame, args []Value) Value {
+		fr.m.mapDelete(smap(fr.m, fr.ptr(args[0])), args[1])
+		return nil
+	})
+	reg("(*sync.Map).Swap", func(fr *frame, args []Value) Value {
+		mp := smap(fr.m, fr.ptr(args[0]))
+		if e := fr.m.mapFind(mp, args[1]); e != nil {
+			old := e.v
+			fr.m.mapSet(mp, args[1], args[2])
+			return Tuple{old, term.True}
+		}
+		fr.m.mapSet(mp, args[1], args[2])
+		return Tuple{Iface{}, term.False}
+	})
+	reg("(*sync.Map).Range", func(fr *frame, args []Value) Value {
+		mp := smap(fr.m, fr.ptr(args[0]))
+		snap := append([]*mapEntry(nil), mp.entries...)
+		for _, e := range snap {
+			if e.deleted {
+				continue
+			}
+			r := fr.m.call(fr, fr.curPos, args[1], []Value{e.k, e.v})
+			if t, ok := r.(*term.Term); ok && !fr.m.Decide(t) {
+				break
+			}
+		}
+		return nil
+	})
+	reg("(*sync.Map).Clear", func(fr *frame, args []Value) Value {
+		mp := smap(fr.m, fr.ptr(args[0]))
+		for _, e := range append([]*mapEntry(nil), mp.entries...) {
+			if !e.deleted {
+				fr.m.mapDelete(mp, e.k)
+			}
+		}
+		return nil
+	})
+
 	// Pool
 	reg("(*sync.Pool).Get", func(fr *frame, args []Value) Value {
 		p := fr.ptr(args[0])
